@@ -1011,3 +1011,26 @@ pub fn c19_release_via_window_update_queue() {
     std::mem::forget(recv);
     std::mem::forget(counts);
 }
+
+/// C03/C06: draining `pending_window_updates` while the codec has no room must leave the
+/// stream queued - it still owes its WINDOW_UPDATE and nothing else would re-queue it.
+pub fn c03_update_stream_codec_full_keeps_queue() {
+    let mut w = rworld(3, true);
+    let _pre = sym_rpre(&mut w);
+    {
+        let mut p = w.store.resolve(w.key);
+        p.is_pending_window_update = true;
+    }
+    store_h::queue_set_single(&mut w.recv.pending_window_updates, w.key);
+    let mut codec = mk_codec::<Prioritized<SymBuf>>(Mock::new([0; EXP], 0, 0));
+    codec_set_blocked(&mut codec, true);
+    let r = w.recv.send_stream_window_updates(&mut w.store, &mut w.counts, &mut codec);
+    assert!(matches!(r, Ok(BufferStatus::CodecFull)), "a full codec must report CodecFull");
+    assert!(codec_buffered(&codec).is_empty());
+    let p = w.store.resolve(w.key);
+    assert!(p.is_pending_window_update && !pending_window_updates_empty(&w.recv),
+        "C03/C06: stream taken out of pending_window_updates although its WINDOW_UPDATE could not be written - the owed credit is lost");
+    kani::cover!(true, "end");
+    std::mem::forget(codec);
+    rforget(w);
+}
